@@ -10,7 +10,7 @@ from .. import gen
 from ..engine import REPO
 from ..oracles import autom as A
 
-from geometry_tools import representation
+from geometry_tools import representation, projective, hyperbolic
 from geometry_tools.automata import fsa
 
 LETTERS = "abcdefghijklmnopqrstuvwxyz"
@@ -212,12 +212,13 @@ class HRep:
                 self.lib_mats[nm] = M.copy()
             self.norm = {g: float(np.linalg.norm(M, 2)) for g, M in self.gens.items()}
         self._cache = {}
+        self.wrap = repcase.get("wrap") if self.dim >= 2 else None
 
     def library(self):
         rep = representation.Representation()
         for nm, M in self.lib_mats.items():
             rep[nm] = M.copy()
-        return rep
+        return wrapped(rep, self.wrap)
 
     def image(self, tokens):
         """(float matrix, scale = product of letter norms, exact integer tuple or None)"""
@@ -238,6 +239,25 @@ class HRep:
             res = (M, scale, None)
         self._cache[tokens] = res
         return res
+
+
+def wrapped(rep, wrap):
+    """"for every representation": the plain one, or the same generators held by a
+    ProjectiveRepresentation / HyperbolicRepresentation, whose answers are composite
+    Transformation / Isometry objects"""
+    if wrap == "projective":
+        return projective.ProjectiveRepresentation(rep)
+    if wrap == "hyperbolic":
+        return hyperbolic.HyperbolicRepresentation(rep)
+    return rep
+
+
+def arr(x, dtype=None):
+    """the stack of word images as matrices acting on columns, whatever the representation
+    class wraps them in"""
+    if hasattr(x, "matrix"):
+        x = np.swapaxes(np.asarray(x.matrix), -1, -2)
+    return np.asarray(x, dtype=dtype)
 
 
 def tokens_of_label(lk, label):
@@ -301,7 +321,7 @@ def check_call(ctx, rep, H, F, model, start, lk, L, mode, state, maxlen, edge_wo
         ctx.check(isinstance(res, tuple) and len(res) == 2,
                   "with_words=True returns (matrices, words)", tag=tag)
         mats, words = res
-        mats = np.asarray(mats)
+        mats = arr(mats)
         words = list(words)
         got_c = collections.Counter(words)
         want_c = collections.Counter(exp_words)
@@ -327,7 +347,7 @@ def check_call(ctx, rep, H, F, model, start, lk, L, mode, state, maxlen, edge_wo
     if only_with_words in (None, False):
         if memo is not None and only_with_words is None:
             raise HarnessError("a memo is tied to one with_words value")
-        m2 = np.asarray(rep.automaton_accepted(F, L, with_words=False, **kw))
+        m2 = arr(rep.automaton_accepted(F, L, with_words=False, **kw))
         ctx.check(not isinstance(m2, tuple) and m2.ndim == 3,
                   "with_words=False returns one array", tag=tag)
         greedy_match(ctx, "with_words=False [" + tag + "]", m2.astype(float), E, Etol)
@@ -394,6 +414,7 @@ def rep_case(draw, lk, max_k=4):
                  mats=[draw(gen.wellcond_matrix(dim, maxfactor=2.0)) for _ in range(k)])
     if names:
         r["names"] = names
+    r["wrap"] = draw(st.sampled_from([None, None, "projective", "hyperbolic"]))
     return r
 
 
@@ -497,7 +518,8 @@ def body_accept(case, ctx):
     label_automaton(ctx, model, start, case["Ls"], lk)
     ctx.label("rep=" + case["rep"]["kind"] + ("/" + case["rep"].get("dt", "")
                                                if H.exact else ""),
-              "free-automaton" if "free" in aut else "route=%d" % aut.get("route", 0))
+              "free-automaton" if "free" in aut else "route=%d" % aut.get("route", 0),
+              "class=%s" % H.wrap)
     verts = list(model)
     if case.get("only_states") is not None:     # (used by hand-written regression cases)
         verts = [v for v in verts if str(v) in case["only_states"]]
@@ -607,11 +629,12 @@ def free_case(draw):
         dim = draw(st.integers(1, 3))
         r = dict(kind="float", k=k, dim=dim,
                  mats=[draw(gen.wellcond_matrix(dim, maxfactor=2.0)) for _ in range(k)])
+    r["wrap"] = draw(st.sampled_from([None, None, "projective", "hyperbolic"]))
     Lmax = {1: 9, 2: 6, 3: 4, 4: 4}[k]
     L = Lmax - draw(st.integers(0, 2)) if draw(st.booleans()) else draw(st.integers(0, Lmax))
     # order in which the generators are assigned (the dict order of rep.generators)
     order = draw(st.permutations(list(range(k))))
-    return dict(rep=r, L=L, order=list(order))
+    return dict(rep=r, L=L, order=list(order), spoil=draw(st.booleans()))
 
 
 def body_free(case, ctx):
@@ -621,14 +644,21 @@ def body_free(case, ctx):
     for i in case["order"]:
         nm = H.names[i]
         rep[nm] = H.lib_mats[nm].copy()
+    rep = wrapped(rep, H.wrap)
+    if case.get("spoil"):
+        # the caller's own free automaton on the same generators, edited in place before
+        # the representation is asked: the enumeration does not depend on it
+        ctx.label("callers-free-automaton-edited")
+        mine = fsa.free_automaton(list(H.names))
+        mine.delete_vertex(H.names[0])
     lay = A.freely_reduced_words(H.names, L)
-    ctx.label("rank=%d" % k, "L=%d" % L, "rep=" + case["rep"]["kind"])
+    ctx.label("rank=%d" % k, "L=%d" % L, "rep=" + case["rep"]["kind"], "class=%s" % H.wrap)
     if k >= 2 and L >= 2:
         ctx.label("nt")
     for ml in (True, False):
         want = [w for layer in (lay if ml else lay[L:]) for w in layer]
         mats, words = rep.freely_reduced_elements(L, maxlen=ml, with_words=True)
-        mats = np.asarray(mats)
+        mats = arr(mats)
         gc = collections.Counter(words)
         ctx.check(max(gc.values(), default=1) == 1, "each freely reduced word exactly once",
                   maxlen=ml, repeated=[w for w, c in gc.items() if c > 1][:5])
@@ -643,7 +673,7 @@ def body_free(case, ctx):
             tol[i] = 1e-9 + 1e-11 * sc
         ctx.small("freely_reduced_elements: matrices[i] is the image of words[i]",
                   (mats.astype(float) - W) / tol[:, None, None], 1.0, maxlen=ml)
-        m2 = np.asarray(rep.freely_reduced_elements(L, maxlen=ml))
+        m2 = arr(rep.freely_reduced_elements(L, maxlen=ml))
         greedy_match(ctx, "freely_reduced_elements(with_words=False)", m2.astype(float), W, tol)
         if H.exact and len(words) > 1:
             ims = {H.image(tuple(w))[2] for w in words}
@@ -727,10 +757,10 @@ def body_memo(case, ctx):
                       "memoised words == fresh words", L=L, state=s)
         else:
             fm = fresh
-        fm = np.asarray(fm, dtype=float)
+        fm = arr(fm, dtype=float)
         tol = np.full(len(fm), 1e-9) + 1e-11 * np.max(np.abs(fm), axis=(1, 2), initial=0.0) \
             if len(fm) else np.zeros(0)
-        greedy_match(ctx, "memoised matrices == fresh matrices", np.asarray(mats, dtype=float),
+        greedy_match(ctx, "memoised matrices == fresh matrices", arr(mats, dtype=float),
                      fm, tol)
     if len(memo):
         ctx.label("memo-populated")
@@ -885,6 +915,7 @@ def body_multiple(case, ctx):
         rep2 = representation.Representation()
         for lab in labs:
             rep2[lab] = np.array(H.image(tuple(lab))[0])
+        rep2 = wrapped(rep2, H.wrap)
         ctx.label("edge_words=False via product generators")
         for (mode, s, ml) in [("default", None, True), ("default", None, False)] + \
                 [("end", v, True) for v in verts] + [("start", v, False) for v in verts]:
@@ -897,8 +928,8 @@ def body_multiple(case, ctx):
             m2, w2 = rep2.automaton_accepted(Fk, L, maxlen=ml, with_words=True,
                                              edge_words=False, **kw)
             ctx.check(list(w1) == list(w2), "same words with edge_words=False", mode=mode)
-            m1 = np.asarray(m1, dtype=float)
-            m2 = np.asarray(m2, dtype=float)
+            m1 = arr(m1, dtype=float)
+            m2 = arr(m2, dtype=float)
             ctx.close("edge_words=False on product generators == edge_words=True", m2, m1,
                       rtol=1e-9, atol=1e-9)
 
